@@ -57,6 +57,19 @@ def check(repo: Repo, rep: Report) -> None:
     rep.rule("K2-termination", "errors pass through; completion always ends in a terminal call", floor=15)
     rep.rule("K3-synchronous", "no scheduler in aggregates", floor=8)
     rep.rule("K4-composites", "composite aggregates are built from their documented components", floor=12)
+    rep.rule("D3-default-ordering", "the default ordering of min / max / min_by / max_by is the sign of the keys' own difference, unconverted", floor=1)
+    dsc = repo.fn("reactivex/internal/basic.py", "default_sub_comparer")
+    rets = [n.value for n in dsc.all_nodes() if isinstance(n, ast.Return) and n.value is not None]
+    a_, b_ = (dsc.params + ["?", "?"])[:2]
+    def _ordering(e: ast.AST) -> bool:
+        if isinstance(e, ast.BinOp) and isinstance(e.op, ast.Sub):
+            if u(e.left) == a_ and u(e.right) == b_:
+                return True
+            return u(e.left) in (f"({a_} > {b_})", f"{a_} > {b_}", f"{b_} < {a_}") and u(e.right) in (f"({a_} < {b_})", f"{a_} < {b_}", f"{b_} > {a_}")
+        return False
+    rep.ob("D3-default-ordering", dsc, f"default_sub_comparer returns `{' ; '.join(short(r) for r in rets) or '?'}`", len(rets) == 1 and _ordering(rets[0]),
+           "the default comparer of min / max / min_by / max_by is not the plain difference of the two keys: a conversion (int(), round()) or "
+           "another expression changes its sign for some keys (keys less than 1 apart compare equal), so the extremum differs from min(xs) / max(xs)")
     rep.rule("K5-error-kinds", "empty input without default => SequenceContainsNoElementsError (flag-decided); single: second element => error", floor=4)
     for key in OPS:
         got = TC.check_operator(repo, rep, "K1-signature", key,
